@@ -242,9 +242,50 @@ func loadOfField(v ssa.Value) (*types.Var, ssa.Value) {
 	return fieldOfVal(v)
 }
 
-// eachInstr visits every instruction of fn.
+var liveCache = map[*ssa.Function]map[*ssa.BasicBlock]bool{}
+
+// liveBlocks: blocks reachable from the entry when branches on constants (`const debug = false`) are resolved.
+func liveBlocks(fn *ssa.Function) map[*ssa.BasicBlock]bool {
+	if m, ok := liveCache[fn]; ok {
+		return m
+	}
+	m := map[*ssa.BasicBlock]bool{}
+	if len(fn.Blocks) > 0 {
+		work := []*ssa.BasicBlock{fn.Blocks[0]}
+		for len(work) > 0 {
+			b := work[len(work)-1]
+			work = work[:len(work)-1]
+			if m[b] {
+				continue
+			}
+			m[b] = true
+			if ifi, ok := b.Instrs[len(b.Instrs)-1].(*ssa.If); ok {
+				if cst, ok := ifi.Cond.(*ssa.Const); ok && cst.Value != nil && cst.Value.Kind() == constant.Bool {
+					if constant.BoolVal(cst.Value) {
+						work = append(work, b.Succs[0])
+					} else {
+						work = append(work, b.Succs[1])
+					}
+					continue
+				}
+			}
+			work = append(work, b.Succs...)
+		}
+		if fn.Recover != nil {
+			m[fn.Recover] = true
+		}
+	}
+	liveCache[fn] = m
+	return m
+}
+
+// eachInstr visits every instruction of fn in blocks that are not statically dead.
 func eachInstr(fn *ssa.Function, f func(b *ssa.BasicBlock, in ssa.Instruction)) {
+	live := liveBlocks(fn)
 	for _, b := range fn.Blocks {
+		if !live[b] {
+			continue
+		}
 		for _, in := range b.Instrs {
 			f(b, in)
 		}
